@@ -70,7 +70,7 @@ func init() {
 			{PkgPath: goosePkg, Func: "verifC07Containment", Opt: big, Replay: "model"},
 		},
 		Covers: []string{"c07/contained", "c07/foreign"},
-		Bounds: "error containment/aggregation kernel: N ≤ 2 (quick) / 3 (thorough) declarations over ≤ 2 files, each with outcome ∈ {ok, unsupported, todo, future, impossible(go), impossible(no-examples), foreign panic}, every dependency relation",
+		Bounds: "error containment/aggregation kernel: N ≤ 2 (quick) / 3 (thorough) declarations over ≤ 2 files, each with outcome ∈ {ok, unsupported, todo, future, impossible(go), impossible(no-examples), foreign panic}, every dependency relation; declaration census with the real goose over the rule corpora and 150 (3×500) random look-alikes",
 		Assumptions: []string{
 			"Ctx.maybeDecls is replaced by a stub raising errors through the real errorReporter methods; totality of the translator over arbitrary type-correct Go is NOT claimed (not encodable)",
 			"errorReporter.printGo (go/printer) stubbed; runtime.Caller arbitrary",
